@@ -101,6 +101,61 @@ def canon(s: Any, self_name: str = "self") -> List[Tuple[Any, ...]]:
             out.append(("LOOP", f.b, tuple(f.a) if isinstance(f.a, tuple) else f.a))
         else:
             out.append((f.kind, repr(f.a)))
+    return _merge_indent(out)
+
+
+def _units(t: str) -> Optional[int]:
+    return len(t) // 2 if t and t == "  " * (len(t) // 2) else None
+
+
+def _merge_indent(toks: List[Tuple[Any, ...]]) -> List[Tuple[Any, ...]]:
+    """'  ' * 7 + '  ' * (indent - 8) is INDENT(indent - 1): literals made of whole indentation units join a neighbouring INDENT."""
+    res: List[Tuple[Any, ...]] = []
+    for t in toks:
+        if res and t[0] == "INDENT" and res[-1][0] == "LIT" and _units(res[-1][1]) is not None:
+            res[-1] = ("INDENT", t[1] + _units(res[-1][1]))
+        elif res and t[0] == "LIT" and _units(t[1]) is not None and res[-1][0] == "INDENT":
+            res[-1] = ("INDENT", res[-1][1] + _units(t[1]))
+        else:
+            res.append(t)
+    return res
+
+
+def indent_is_zero(atoms: Any) -> bool:
+    """Do the path's comparisons on the `indent` parameter admit indent == 0 and no positive level?  (`if indent <= 0:
+    return ""` is the same as "  " * indent there; the generic paths cover every positive level.)"""
+    cons = []
+    for a, val in atoms:
+        if not (isinstance(a, tuple) and a and a[0] == "cmp" and len(a) == 4):
+            continue
+        l, r = getattr(a[2], "v", a[2]), getattr(a[3], "v", a[3])
+        for x, y, op in ((l, r, a[1]), (r, l, {"<": ">", "<=": ">=", ">": "<", ">=": "<="}.get(a[1], a[1]))):
+            if isinstance(x, SInt) and x.base == "indent" and isinstance(y, int) and not isinstance(y, bool):
+                cons.append((op, x.off, y, bool(val)))
+    for a, val in atoms:
+        if isinstance(a, tuple) and a and a[0] == "nonzero" and a[1] == "indent":
+            cons.append(("!=", 0, 0, bool(val)))
+    if not cons:
+        return False
+    import operator as _o
+    f = {"==": _o.eq, "!=": _o.ne, "<": _o.lt, "<=": _o.le, ">": _o.gt, ">=": _o.ge}
+
+    def sat(n: int) -> bool:
+        return all(f[op](n + off, c) is want for op, off, c, want in cons if op in f)
+    return sat(0) and not any(sat(n) for n in range(1, 200))
+
+
+def at_indent_zero(toks: List[Tuple[Any, ...]]) -> List[Tuple[Any, ...]]:
+    """Token stream specialised to indent == 0 (INDENT(0) is the empty string, INDENT(k) is k units)."""
+    out: List[Tuple[Any, ...]] = []
+    for t in toks:
+        if t[0] == "INDENT":
+            if t[1] > 0:
+                out.append(("LIT", "  " * t[1]))
+            continue
+        if t[0] in ("TAG", "CHILDREN"):
+            t = tuple(("const", x[1]) if isinstance(x, tuple) and len(x) == 2 and x[0] == "indent" else x for x in t)
+        out.append(t)
     return out
 
 
@@ -158,6 +213,7 @@ class SibRow:
         self.tokens: List[Tuple[Any, ...]] = []
         self.next: Dict[str, Any] = {}
         self.acc_ok = True
+        self.indent_zero = indent_is_zero(leaf.atoms)
 
 
 class Model:
